@@ -247,7 +247,7 @@ def run(res, rng, tier, known):
     # value-level tie of permute / reshape / rl_orthogonal: exact integer oracles in place of SVD/QR, compared core by core with TTModel/Permute.lean and TTModel/Reshape.lean
     from checks.sweeps import sweep_cases
     run_cases(res, sweep_cases(rng, tier, "permute") + sweep_cases(rng, tier, "reshape") + sweep_cases(rng, tier, "rl_orthogonal")
-              + sweep_cases(rng, tier, "permute_ttm") + sweep_cases(rng, tier, "reshape_ttm"), known)
+              + sweep_cases(rng, tier, "permute_ttm") + sweep_cases(rng, tier, "reshape_ttm") + sweep_cases(rng, tier, "to_qtt"), known)
     replay_decisions(res, rec.calls, res.prop, "reshape/permute")
     # control-flow tie: mode sizes and number of SVD splits / swaps predicted by M-sweep
     ties = [t for t in TIES if "r" in t[2]]
